@@ -432,6 +432,9 @@ class FractionValue:
 
         def GetFractionalPart(value: float) -> float:
             str_value = str(value)
+            if "e" in str_value.lower():
+                # Exponent notation ("1e-05") has no plain digits to cut: take the part numerically.
+                return value % 1.0
             pos = str_value.find(".")
             return float("0." + str_value[pos + 1 :])
 
